@@ -338,7 +338,7 @@ impl MTable {
     }
 }
 
-#[derive(Clone, Debug, Default, PartialEq, Eq, Serialize, Deserialize)]
+#[derive(Clone, Debug, Default, PartialEq, Eq, Hash, Serialize, Deserialize)]
 pub struct MSummary {
     pub codepage: i32,
     pub title: Option<String>,
